@@ -269,6 +269,16 @@ impl<T: RcObject> AtomicRc<T> {
         loop {
             #[cfg(feature = "circ_verif")]
             crate::verif::yp2(crate::verif::site::ARC_CAS_WEAK, &self.link as *const _ as usize, expected_raw.verif_word(), desired_raw.verif_word());
+            #[cfg(feature = "circ_verif")]
+            if crate::verif::buggify(crate::verif::fault::ARC_CAS_WEAK) {
+                // Spurious failure of the weak CAS: behave exactly as the `Err` arm below does
+                // when the value read equals `expected_raw`.
+                let current_raw = self.link.load(failure);
+                if current_raw.ptr_eq(expected_raw) {
+                    expected_raw = current_raw;
+                    continue;
+                }
+            }
             match self
                 .link
                 .compare_exchange_weak(expected_raw, desired_raw, success, failure)
